@@ -59,6 +59,8 @@ def _xf(p, vc):
     f = int(p.Format)
     var = f % 2 == 1 and f >= 13
     base = getattr(p, "VarIndexBase", None) if var else None
+    if f == 13:  # the variation index of a PaintVarTransform lives in its VarAffine2x3
+        base = getattr(p.Transform, "VarIndexBase", None)
     k = [0]
 
     def v(val, scale):
